@@ -18,6 +18,8 @@ MC_THROW = dict(maxcalls=3, budget=1, apis=("start", "pe"), dirops=("throw",), d
 
 ALL = ["back", "back_fct", "back11", "mp11", "mp11_fct", "mp11_fpa"]
 
+EVENTS = dict(throws=0.1, subs=0.4, enq=0.2, drain=0.1, restart=0.1, startsubs=0.0, maxcalls=8, copy=0.15, ninst=3, destroy=0.1)
+
 PLAN = {
  "C01": dict(machines=["flat", "ortho", "hier2", "hier3", "kleene"], profile=PLAIN, mc=MC_PLAIN, invariants=["P_C01"],
              title="enabled-transition selection"),
@@ -48,6 +50,9 @@ PLAN = {
  "C15": dict(machines=["defer", "pseudo", "histA", "compl"], profile=dict(MIXED, throws=0.05, copy=0.25, ninst=3), ninst=3,
              mc=dict(maxcalls=3, budget=0, apis=("start", "pe", "enq", "drain", "copy", "assign"), dirops=(), direvs=(), ninst=2), invariants=["P_C15"],
              title="copies and moves"),
+ "C20": dict(machines=["events"], profile=EVENTS, ninst=3, san_machines=["events"], valgrind=True,
+             mc=dict(maxcalls=3, budget=1, percall=False, apis=("start", "pe", "enq", "drain1"), dirops=("pe",), direvs=("E2", "E6")), invariants=["P_C04"], trace_invariants=[],
+             title="stored events"),
  "C17": dict(machines=["ortho", "hier3", "block"], profile=dict(PLAIN, restart=0.05), mc=MC_PLAIN, invariants=["P_C17"],
              title="flags"),
  "C18": dict(machines=["kleene"], profile=dict(PLAIN, subs=0.2, enq=0.1, drain=0.1), mc=MC_PLAIN5, invariants=["P_C01", "P_C18"],
@@ -55,3 +60,7 @@ PLAN = {
  "C19": dict(machines=["policy0", "policy1", "policy2", "policy3"], profile=dict(PLAIN, subs=0.1), mc=MC_PLAIN, invariants=["P_C19"],
              title="active-state-switch policy"),
 }
+
+import extra
+EXTRA = {"C20": extra.sanitizer_phase,
+         "C12": lambda prop, pl, tier, v, seed, ev: extra.sanitizer_phase(prop, dict(pl, san_machines=["compl", "policy2"], valgrind=True), tier, v, seed, ev)}
